@@ -213,4 +213,84 @@ theorem streamRead_core (fb : Bool) (pre kw eol0 R : Bytes) (len : Option Int)
     rw [← List.drop_drop, h2]
   simp only [h2, h3]
 
+theorem startsWith_prefix (p w x : Bytes) (h : startsWith p (w ++ x) = true) (hl : w.length ≤ p.length) :
+    w = p.take w.length := by
+  induction w generalizing p with
+  | nil => simp
+  | cons c w ih =>
+    cases p with
+    | nil => simp at hl
+    | cons e p =>
+      simp only [List.cons_append, startsWith, Bool.and_eq_true, beq_iff_eq] at h
+      simp only [List.length_cons, Nat.add_le_add_iff_right] at hl
+      simp only [List.length_cons, List.take_succ_cons]
+      rw [← ih p h.2 hl, h.1]
+
+/-- `endstream` has no border: no proper non-empty prefix of it is also a suffix. -/
+theorem mark_no_border : ∀ k, k < ENDSTREAM_MARK.length → 1 ≤ k →
+    startsWith ENDSTREAM_MARK (ENDSTREAM_MARK.take k ++ ENDSTREAM_MARK) = false := by decide
+
+/-- A byte string in which the marker does not occur: the first occurrence in `d ++ endstream` is
+the final one. -/
+theorem findSub_of_free (d : Bytes) (h : ∀ i, startsWith ENDSTREAM_MARK (d.drop i) = false) :
+    findSub ENDSTREAM_MARK (d ++ ENDSTREAM_MARK) = some d.length := by
+  induction d with
+  | nil => decide
+  | cons c d ih =>
+    have h0 : startsWith ENDSTREAM_MARK (c :: d) = false := by simpa using h 0
+    have ih' := ih (fun i => by simpa using h (i + 1))
+    have hs : startsWith ENDSTREAM_MARK (c :: d ++ ENDSTREAM_MARK) = false := by
+      by_cases hl : ENDSTREAM_MARK.length ≤ (c :: d).length
+      · exact startsWith_append_false _ _ _ h0 hl
+      · cases hs : startsWith ENDSTREAM_MARK (c :: d ++ ENDSTREAM_MARK) with
+        | false => rfl
+        | true =>
+          have hw := startsWith_prefix ENDSTREAM_MARK (c :: d) ENDSTREAM_MARK hs (by omega)
+          have hb := mark_no_border (c :: d).length (by omega) (by simp)
+          rw [← hw] at hb
+          rw [hb] at hs; cases hs
+    simp only [List.cons_append] at hs
+    simp [findSub, hs, ih']
+
+theorem nextline_len (s line : Bytes) (h : nextline s = some line) : 1 ≤ line.length ∧ line.length ≤ s.length := by
+  induction s generalizing line with
+  | nil => simp [nextline] at h
+  | cons c rest ih =>
+    simp only [nextline] at h
+    split at h
+    · cases h; simp
+    · split at h
+      · cases rest with
+        | nil => simp at h
+        | cons d t =>
+          simp only at h
+          split at h <;> (cases h; simp)
+      · cases hn : nextline rest with
+        | none => simp [hn] at h
+        | some l =>
+          simp [hn] at h
+          have := ih l hn
+          subst h
+          simp; omega
+
+theorem scan_fuel_aux (f1 f2 : Nat) (s : Bytes) (h1 : s.length < f1) (h2 : s.length < f2) :
+    scanEndstream f1 s = scanEndstream f2 s := by
+  induction f1 generalizing f2 s with
+  | zero => omega
+  | succ f1 ih =>
+    cases f2 with
+    | zero => omega
+    | succ f2 =>
+      simp only [scanEndstream]
+      cases hn : nextline s with
+      | none => rfl
+      | some line =>
+        have hl := nextline_len s line hn
+        simp only []
+        cases hfs : findSub ENDSTREAM_MARK line with
+        | some i => rfl
+        | none =>
+          simp only []
+          rw [ih f2 (s.drop line.length) (by simp; omega) (by simp; omega)]
+
 end PdfVerif.Filters
